@@ -5,6 +5,7 @@
 From Coq Require Import String Ascii List Arith Bool.
 Require Import TT.Model.Str TT.Spec.TsLex TT.Spec.TsModule TT.Spec.TsObs TT.Model.Pipeline TT.Model.Events TT.Spec.C12Spec.
 Require Import TT.Proofs.C12Proofs TT.Proofs.C12Exact TT.Proofs.C12Payload TT.Proofs.C12Parse TT.Proofs.C12Lex TT.Proofs.C12Prefix TT.Proofs.C12Legal TT.Proofs.C12Full TT.Proofs.C12Names.
+Require Import TT.Spec.C12Bind TT.Proofs.C12Bindings.
 Require Import TT.Model.TypeParse TT.Model.Render TT.Spec.C05Spec TT.Proofs.TypeParseProofs.
 Import ListNotations.
 
@@ -252,6 +253,83 @@ Proof. vm_compute. reflexivity. Qed.
 Example C12_ex_ident : listener_name (L "download-progress_2") = L "onDownloadProgress2" /\ listener_name (L "a.b c") = L "onABC".
 Proof. vm_compute. split; reflexivity. Qed.
 
+(* ---------------- binding histories: the per-function symbol table as a state machine ----------------
+   Spec/C12Bind.v: bind (one let statement, = extract_local_binding), run (the fold over the statements
+   before the emit), infer (= infer_payload_type under the resulting table); last_typable / last_kind
+   read the history of the bindings of ONE name. *)
+
+(* (1) for every history and every start table: the entry of x after the run is the type recorded by the
+   LAST TYPABLE binding of x, else the entry it had before (a parameter) *)
+Theorem C12_bindings_table_last_typable : forall x ss sy,
+  lookup x (run sy ss) = match last_typable x sy ss with Some t => Some t | None => lookup x sy end.
+Proof. exact lookup_run. Qed.
+
+(* un-typable re-bindings are invisible: a let of x the tool cannot type (no annotation; initialiser not a
+   struct literal, A::b(..) call or typed variable; or no initialiser) changes no table, so deleting it from
+   the history changes nothing the tool infers afterwards *)
+Theorem C12_bindings_untypable_invisible : forall x pre s post sy,
+  rebinds x s = true -> typed_as x s (run sy pre) = None ->
+  run sy (pre ++ s :: post) = run sy (pre ++ post).
+Proof. exact untypable_invisible. Qed.
+
+(* the inferred type at the emit: when the last binding of x is typable it is that binding's type *)
+Theorem C12_bindings_infer_last_typable : forall x ss sy t,
+  last_kind x sy ss = Some (Some t) -> infer (run sy ss) (XPath [x]) = t.
+Proof. exact infer_last_typable. Qed.
+
+(* the state machine IS the walker on straight-line bodies: parameters, then any plain statements, then an
+   emit of x (bare, under & or .clone()) give exactly one event whose payload string is hist_type *)
+Theorem C12_bindings_walker_history : forall params ss n p x,
+  forallb plain_stmt ss = true -> var_payload x p = true ->
+  fn_events_p params (ss ++ [emit_stmt n p]) = [(n, hist_type x (param_symbols params) ss)].
+Proof. exact fn_events_history. Qed.
+
+(* the class C12-scope (finding C05-10) in terms of histories is kf_bind_scope: the last binding is
+   un-typable and the table still answers.  On its complement, with the last binding typable, the listener
+   generated for the emit has exactly that binding's type as its payload type. *)
+Theorem C12_bindings_listener_typable : forall params ss n p x t,
+  forallb plain_stmt ss = true -> var_payload x p = true ->
+  last_kind x (param_symbols params) ss = Some (Some t) ->
+  model_listeners (fn_events_p params (ss ++ [emit_stmt n p])) =
+  [{| ml_ident := listener_name n; ml_event := n; ml_payload := payload_ts t |}].
+Proof. exact bindings_listener_typable. Qed.
+
+(* the whole complement of the class, case by case *)
+Theorem C12_bindings_complement : forall x sy ss,
+  kf_bind_scope x sy ss = false ->
+  infer (run sy ss) (XPath [x]) =
+  match last_kind x sy ss with
+  | Some (Some t) => t
+  | Some None => unraw x
+  | None => match lookup x sy with Some t => t | None => unraw x end
+  end.
+Proof. exact bindings_complement. Qed.
+
+(* inside the class the tool answers with the stale entry of an EARLIER binding *)
+Theorem C12_bindings_scope_stale : forall x ss sy,
+  kf_bind_scope x sy ss = true ->
+  exists u, lookup x (run sy ss) = Some u /\ infer (run sy ss) (XPath [x]) = u /\ last_kind x sy ss = Some None.
+Proof. exact scope_class_stale. Qed.
+
+(* (2) a witness inside the class: let u = User{..}; let k: u32; let u = compute(); emit(.., u) - in the
+   domain, in exactly the recorded class kf_scope, the oracle complains, and the listener says types.User *)
+Theorem C12_bindings_scope_refuted :
+  witness w_bind_scope "kf_scope" /\
+  kf_bind_scope (L "u") (param_symbols (map (fun q => (Some (fst q), snd q)) worker_params)) hist_scope = true /\
+  map ml_payload (model_listeners (project_events w_bind_scope)) = [L "types.User"].
+Proof. exact witness_bind_scope. Qed.
+
+(* premises of the binding theorems on a history of three bindings (un-typable, typable, other name) *)
+Example C12_ex_bindings :
+  let sy := param_symbols (map (fun q => (Some (fst q), snd q)) worker_params) in
+  forallb plain_stmt hist_typable = true /\ var_payload (L "u") (XRef (M0 (V "u") "clone")) = true /\
+  last_kind (L "u") sy hist_typable = Some (Some (L "User")) /\ last_typable (L "u") sy hist_typable = Some (L "User") /\
+  kf_bind_scope (L "u") sy hist_typable = false /\
+  rebinds (L "u") (SLet (PIdent (L "u")) (Some (XCall (V "compute") []))) = true /\
+  typed_as (L "u") (SLet (PIdent (L "u")) (Some (XCall (V "compute") []))) (run sy []) = None /\
+  kf_bind_scope (L "p") sy [SLet (PIdent (L "p")) None] = true /\ last_kind (L "n") sy hist_typable = None.
+Proof. vm_compute. repeat split; reflexivity. Qed.
+
 Print Assumptions C12_walker_complete.
 Print Assumptions C12_walker_sound.
 Print Assumptions C12_walker_exact.
@@ -284,3 +362,11 @@ Print Assumptions C12_full_names.
 Print Assumptions C12_name_ok_prim.
 Print Assumptions C12_name_ok_custom.
 Print Assumptions C12_oracle_accepts_text.
+Print Assumptions C12_bindings_table_last_typable.
+Print Assumptions C12_bindings_untypable_invisible.
+Print Assumptions C12_bindings_infer_last_typable.
+Print Assumptions C12_bindings_walker_history.
+Print Assumptions C12_bindings_listener_typable.
+Print Assumptions C12_bindings_complement.
+Print Assumptions C12_bindings_scope_stale.
+Print Assumptions C12_bindings_scope_refuted.
